@@ -47,6 +47,7 @@ class Side:
         self.names = {}      # sid -> 'c0/'
         self.cb = []         # callback log
         self.out_ids = {}    # (client, ns) -> [event ids awaiting ACK]
+        self.last_acked = {}  # (client, ns) -> id of the latest ACK sent
         for c, h in enumerate(placement):
             w = self.world_of(c)
             self.t[c] = w.new_transport()
@@ -87,6 +88,7 @@ class Side:
         self.world_of(c).recv_packet(self.t[c], 1, ns)
         self.sids.pop((c, ns), None)
         self.out_ids.pop((c, ns), None)
+        self.last_acked.pop((c, ns), None)
         self.settle()
 
     def loss(self, c):
@@ -95,6 +97,7 @@ class Side:
         for ns in ('/', '/x'):
             self.sids.pop((c, ns), None)
             self.out_ids.pop((c, ns), None)
+            self.last_acked.pop((c, ns), None)
         self.t[c] = w.new_transport()
         self.settle()
 
@@ -141,7 +144,16 @@ class Side:
         if not ids:
             return
         id = ids.pop(which)
+        self.last_acked[(c, ns)] = id
         self.world_of(c).recv_packet(self.t[c], 3, ns, id, ['ack', c])
+        self.settle()
+
+    def reack(self, c, ns):
+        """The client repeats its most recent ACK (retransmission)."""
+        id = self.last_acked.get((c, ns))
+        if id is None:
+            return
+        self.world_of(c).recv_packet(self.t[c], 3, ns, id, ['again', c])
         self.settle()
 
     # -- observation ---------------------------------------------------------
@@ -211,6 +223,7 @@ class Model:
         w.member = set()        # (c, ns) in ROOM
         w.sidmember = set()     # (c, ns) in the room named after c0's sid
         w.pendcb = {}           # (c, ns) -> issuing host
+        w.acked = set()         # (c, ns) whose connection has ACKed something
         w.ncb = 0
         self.compare(w, 'initial')
         return w
@@ -241,6 +254,8 @@ class Model:
                     if len(w.pendcb.get((c, ns), ())) < self._maxcb(c, ns):
                         ops.append(('emitcb', c, ns, h))
                 pend = w.pendcb.get((c, ns), ())
+                if (c, ns) in w.acked:
+                    ops.append(('reack', c, ns))
                 if pend:
                     ops.append(('ack', c, ns, 0))
                 if len(pend) > 1:
@@ -280,6 +295,7 @@ class Model:
             for s in (w.A, w.B):
                 s.sids.pop((c, ns), None)
                 s.out_ids.pop((c, ns), None)
+                s.last_acked.pop((c, ns), None)
             self._results(w, op, ra, rb)
             self._gone(w, c, ns)
         elif kind == 'loss':
@@ -350,6 +366,18 @@ class Model:
                 w.pendcb[(c, ns)] = tuple(pend)
             else:
                 w.pendcb.pop((c, ns), None)
+            w.acked.add((c, ns))
+        elif kind == 'reack':
+            # a repeated ACK is ignored: no callback anywhere, on either
+            # system (absolute, the twin shares the code under test)
+            _, c, ns = op
+            self.compare(w, f'before {op}')
+            self._both(w, lambda s: s.reack(c, ns))
+            for side, name in ((w.A, 'cluster'), (w.B, 'single server')):
+                if side.cb:
+                    self._bad(w, 'repeated-ack-fired', f'{op}: the client '
+                              f'repeated an ACK it had already sent and a '
+                              f'callback fired on the {name}: {side.cb!r}')
         self.compare(w, op)
 
     def _gone(self, w, c, ns):
@@ -359,6 +387,7 @@ class Model:
         if (c, ns) == (0, '/'):
             w.sidmember.clear()     # its next sid names a different room
         w.pendcb.pop((c, ns), None)
+        w.acked.discard((c, ns))
 
     def _results(self, w, op, ra, rb):
         if ra != rb:
@@ -381,7 +410,7 @@ class Model:
         # through rooms() at every step, so only the live flag is state
         return (tuple(sorted(w.conn)), tuple(sorted(w.member)),
                 tuple(sorted(w.sidmember)),
-                tuple(sorted(w.pendcb.items())))
+                tuple(sorted(w.pendcb.items())), tuple(sorted(w.acked)))
 
     def probe(self, w):
         n = 0
@@ -389,15 +418,34 @@ class Model:
         for ns in ('/', '/x'):
             sid_keys = [(c, ns) for (c, n2) in sorted(w.conn) if n2 == ns]
             targets = [None, ROOM] + sid_keys
+            # lists of rooms: every host evaluates the list against its own
+            # table, in which a listed room (a personal room, too) exists
+            # only if one of its members lives there
+            lists = [['ghost', ROOM], [ROOM, 'ghost']]
+            if len(sid_keys) >= 2:
+                lists += [[sid_keys[0], sid_keys[-1]],
+                          [sid_keys[-1], sid_keys[0]],
+                          [sid_keys[-1], ROOM]]
+            elif sid_keys:
+                lists += [[sid_keys[0], ROOM]]
+            targets += lists
             skips = [None] + sid_keys[:2]
             vias = list(range(self.nh)) + ['W']
             for to in targets:
                 for skip in skips:
+                    if isinstance(to, list) and skip is not None and \
+                            skip != sid_keys[0]:
+                        continue
                     for via in vias:
                         n += 1
 
                         def do(s):
-                            t = s.sids[to] if isinstance(to, tuple) else to
+                            if isinstance(to, list):
+                                t = [s.sids[x] if isinstance(x, tuple)
+                                     else x for x in to]
+                            else:
+                                t = s.sids[to] if isinstance(to, tuple) \
+                                    else to
                             sk = s.sids[skip] if isinstance(skip, tuple) \
                                 else skip
                             if via == 'W':
